@@ -85,6 +85,24 @@ def run_fast(pgn, src, dest, prio, payload, seq, variant):
         out["actisense"] = canon(NMEA2000Decoder().decode_actisense_string(wire.actisense(pgn, src, dest, prio, payload, ts_a, up)))
     except Exception:
         out["actisense"] = None
+    # address claims arrive around and between the frames: a first claim of some address X before the message, another claim of X with a
+    # different NAME in the middle.  X is the sender itself, the destination, or an address whose decimal digits are part of theirs.
+    from .. import traffic
+    cands = [src, dest if dest < 254 else src, int(str(src)[0]), int(str(src)[:2]), 2, 25, 13, 1, int(str(dest)[:1])]
+    x = min(cands[(seq + len(payload)) % len(cands)], 253)
+    try:
+        d = NMEA2000Decoder()
+        d.decode_tcp(wire.ebyte(wire.ident(60928, x, 255, 6), traffic.iso_name(41, 137).to_bytes(8, "little")))
+        r = None
+        for i, fr in enumerate(frames):
+            if i == max(1, len(frames) // 2) or (len(frames) == 1 and i == 0):
+                d.decode_tcp(wire.ebyte(wire.ident(60928, x, 255, 6), traffic.iso_name(42, 229).to_bytes(8, "little")))
+            r = d.decode_tcp(wire.ebyte(ident, fr, pad))
+            if i < len(frames) - 1 and r is not None:
+                break
+        out["ebyte-with-address-claims"] = canon(r) if (r is None or i == len(frames) - 1) else ("early", canon(r))
+    except Exception:
+        out["ebyte-with-address-claims"] = None
     # ONE decoder that receives the message through a whole-message format first and frame by frame afterwards (another sequence
     # counter), and one that sees it the other way round: the order of formats on a decoder must not matter
     frames2 = wire.segment(payload, (seq + 1) % 8)
@@ -258,6 +276,8 @@ def _work(ctx: Ctx, item):
 
 
 def run(ctx: Ctx):
+    from .. import longrun
+    pmap(ctx, longrun.ticks, [(x, "C07") for x in longrun.limits(ctx)])
     db = canboat.db()
     # one definition per PGN is enough to name the PGN; payload validity is drawn from that definition
     keys = [d.key for d in db.defs if d.ptype in ("Single", "Fast")]
@@ -268,6 +288,9 @@ def run(ctx: Ctx):
 
 
 def replay(ctx: Ctx, case):
+    if "ticks" in case:
+        from .. import longrun
+        return longrun.replay(case, "C07")
     if case.get("interleaved"):
         a, b = [(x[0], x[1], bytes.fromhex(x[2]), x[3]) for x in case["interleaved"]]
         res = []
